@@ -153,6 +153,22 @@ Theorem C02_heavier_branch_adopted_to_checkpoint : forall P gfh ops p now msg f,
 Proof. exact heavier_branch_adopted_to_checkpoint. Qed.
 Print Assumptions C02_heavier_branch_adopted_to_checkpoint.
 
+(* the same as a boolean on plain lists, which the trace monitor applies to the
+   implementation's chain before and after every headers message
+   ([reorg_conditions_b], C02/Truncated.v): whenever accepted headers were
+   replaced, the branch offered by the message from the first replacing header
+   on is valid header by header and matches EVERY hard-coded checkpoint (a
+   branch that matches the next checkpoint and contradicts a later one must
+   leave the chain unchanged), and what was stored is its part up to the
+   first checkpoint height *)
+Theorem C02_monitor_reorg_conditions : forall P gfh ops p now msg,
+  let o := OHeaders p now msg in
+  wf_params P -> no_collision P (ops ++ [o]) -> wf_hist P (ops ++ [o]) ->
+  let s := run P (init_state P gfh) ops in
+  reorg_conditions_b P now (chain s) (chain (step P s o)) msg = true.
+Proof. exact monitor_reorg_conditions. Qed.
+Print Assumptions C02_monitor_reorg_conditions.
+
 (* the trace monitor's test for the two theorems above (C02/Replay.v applies
    [must_adopt_reorg] to the IMPLEMENTATION's chain before a message, with
    [listened_to] computed from the observed sync peer and peer heights) is
